@@ -85,3 +85,19 @@ Proof.
     assert (Z.abs (c / 86400) > 100000000000) by (apply Hbig; lia).
     unfold dn_in_range, DN_MIN, DN_MAX in *. lia.
 Qed.
+
+(** The premise [add_days_ok] is a theorem of C03 now ([add_days_holds], from the shared calendar
+    library's [C08AddDays.add_days_spec]): the unconditional forms. *)
+Definition ndt_leap_add_u := ndt_leap_add add_days_holds.
+Definition ndt_leap_sub_u := ndt_leap_sub add_days_holds.
+(* the premises are inhabited: 2016-12-31T23:59:60.5 (leap fraction) + 1 s = 2017-01-01T00:00:00.5 *)
+Definition leap_date : Z := match Date.from_yo_opt 2016 366 with Val (Some d) => d | _ => 0 end.
+Lemma ndt_leap_example :
+  vdate leap_date /\ Proofs.Time.tvalid (Time.mk_time 86399 1500000000) /\ valid (mk_td 1 0) /\
+  exists b, ndt_checked_add_signed (mk_ndt leap_date (Time.mk_time 86399 1500000000)) (mk_td 1 0) = Val (Some b) /\
+    nd_time b = Time.mk_time 0 500000000 /\ dn (nd_date b) = dn leap_date + 1.
+Proof.
+  split; [vm_compute; repeat split|]. split; [vm_compute; repeat split; discriminate|].
+  split; [vm_compute; repeat split; discriminate|].
+  eexists. split; [vm_compute; reflexivity|]. vm_compute. split; reflexivity.
+Qed.
